@@ -46,6 +46,7 @@ class VLoop(asyncio.BaseEventLoop):
         self.timer_fired = 0
         self.setup = False            # True: deterministic, unrecorded
         self.on_timer = None          # callable() when a timer is fired
+        self.time_limit = None        # timers beyond this are not fired
 
     # -- BaseEventLoop plumbing -------------------------------------------
     def time(self):
@@ -85,7 +86,8 @@ class VLoop(asyncio.BaseEventLoop):
             raise Quiescent()
         options = [('point', lb, f) for lb, f in self.parked]
         when = self._next_timer()
-        if when is not None:
+        if when is not None and (self.time_limit is None or
+                                 when <= self.time_limit):
             options.append(('timer', 'timer@%g' % when, when))
         if not options:
             raise Quiescent()
